@@ -266,9 +266,11 @@ def argparse_function(
                                                 ]["default"]
                                             )
                                             else ast.parse(
-                                                intermediate_repr["returns"][
-                                                    "return_type"
-                                                ]["default"]
+                                                str(
+                                                    intermediate_repr["returns"][
+                                                        "return_type"
+                                                    ]["default"]
+                                                )
                                             )
                                             .body[0]
                                             .value,
